@@ -111,6 +111,12 @@ func (x *expectation) match(post *PBoard) *mismatch {
 				}
 			}
 			if k.post == nil {
+				// the object is there (same unique label, same parent) under another name although its name is free
+				for _, c := range cands {
+					if !used[c] && k.pre.Label != "" && c.Label == k.pre.Label && !strings.EqualFold(c.ID, k.pre.Label) {
+						return &mismatch{"object-renamed-although-its-name-is-free", fmt.Sprintf("object %s (label %q) should keep the name %q under %q — no surviving object there has that name — but is called %q afterwards", k.pre.Abs, k.pre.Label, k.pre.ID, pabs, c.ID)}
+					}
+				}
 				return &mismatch{"object-lost", fmt.Sprintf("object %s (label %q) should be found as %q under %q afterwards, but is not", k.pre.Abs, k.pre.Label, k.pre.ID, pabs)}
 			}
 		}
